@@ -934,6 +934,89 @@ class Tr:
             out[v]["md_size"] = self.accessor(rhs, None, w + "register_size " + v, recv="$size", want=64)
         return out
 
+    # ---------------------------------------------------------------- MinidumpContext::read: which context type is chosen
+    def parse_read(self, variants):
+        """arms of `match md::ProcessorArchitecture::from_u16(system_info.raw.processor_architecture)` in MinidumpContext::read ->
+           [(architecture numbers, architecture names, CONTEXT type read, MinidumpRawContext variant, ContextFlagsCpu constant tested)]"""
+        s = self.ctx_src
+        m = re.search(r"\nimpl MinidumpContext\s*\{", s)
+        e = match_brace(s, m.end() - 1)
+        fns = self.fns_of_block(s[m.end():e], "impl MinidumpContext")
+        w = "context.rs MinidumpContext::read"
+        if not fns.get("read") or not fns.get("from_raw"):
+            die(w + " / from_raw not found")
+        if norm(fns["from_raw"][1]) != "MinidumpContext { raw, valid: MinidumpContextValidity::All, }":
+            die("context.rs MinidumpContext::from_raw changed: %r" % norm(fns["from_raw"][1]))
+        body = fns["read"][1]
+        mm = re.search(r"match\s+md::ProcessorArchitecture::from_u16\(system_info\.raw\.processor_architecture\)\s*\{", body)
+        if not mm:
+            die(w + ": `match md::ProcessorArchitecture::from_u16(system_info.raw.processor_architecture)` not found")
+        ee = match_brace(body, mm.end() - 1)
+        if norm(body[:mm.start()]) != "use md::ProcessorArchitecture::*; let mut offset = 0;" or norm(body[ee + 1:]):
+            die(w + ": code around the match changed: %r ... %r" % (norm(body[:mm.start()])[:80], norm(body[ee + 1:])[:80]))
+        # architecture numbers
+        em = re.search(r"pub enum ProcessorArchitecture\s*\{", self.fmt_src)
+        if not em:
+            die("format.rs: enum ProcessorArchitecture not found")
+        archs = {}
+        for item in split_top(self.fmt_src[em.end():match_brace(self.fmt_src, em.end() - 1)]):
+            im = re.fullmatch(r"(PROCESSOR_ARCHITECTURE_\w+)\s*=\s*(0x[0-9a-fA-F]+|\d+)", strip_attrs(item))
+            if not im:
+                die("format.rs enum ProcessorArchitecture: unrecognised variant %r" % item)
+            archs[im.group(1)] = int(im.group(2), 0)
+        if len(set(archs.values())) != len(archs):
+            die("format.rs enum ProcessorArchitecture: duplicate discriminant")
+        fm = re.search(r"pub fn from_flags\(flags: u32\) -> ContextFlagsCpu \{\s*ContextFlagsCpu::from_bits_truncate\(flags & CONTEXT_CPU_MASK\)\s*\}", self.fmt_src)
+        if not fm:
+            die("format.rs: ContextFlagsCpu::from_flags is not `ContextFlagsCpu::from_bits_truncate(flags & CONTEXT_CPU_MASK)`")
+        mask = self.named_const("md::CONTEXT_CPU_MASK", "format.rs CONTEXT_CPU_MASK")[2]
+        arms, default_seen, seen_arch = [], False, set()
+        for pat, rhs in match_arms(body[mm.end():ee], w):
+            if default_seen:
+                die(w + ": arm after `_`")
+            if pat.strip() == "_":
+                if norm(rhs) != "Err(ContextError::UnknownCpuContext)":
+                    die(w + ": default arm is %r, expected Err(ContextError::UnknownCpuContext)" % norm(rhs)[:80])
+                default_seen = True
+                continue
+            names = []
+            for alt in pat.split("|"):
+                am = re.fullmatch(r"Some\((PROCESSOR_ARCHITECTURE_\w+)\)", alt.strip())
+                if not am or am.group(1) not in archs:
+                    die(w + ": unrecognised arm pattern %r" % pat)
+                if am.group(1) in seen_arch:
+                    die(w + ": %s matched by two arms" % am.group(1))
+                seen_arch.add(am.group(1))
+                names.append(am.group(1))
+            bm = re.fullmatch(
+                r"let ctx: md::(CONTEXT_\w+) = bytes \.gread_with\(&mut offset, endian\) \.or\(Err\(ContextError::ReadFailure\)\)\?; "
+                r"let flags = ContextFlagsCpu::from_flags\(ctx\.context_flags( as u32)?\); "
+                r"if flags == ContextFlagsCpu::(CONTEXT_\w+) \{ "
+                r"(?:if ctx\.context_flags & md::CONTEXT_HAS_XSTATE != 0 \{ warn!\(\"[^\"]*\"\); \} )?"
+                r"Ok\(MinidumpContext::from_raw\(MinidumpRawContext::(\w+)\(ctx\)\)\) \} else \{ Err\(ContextError::ReadFailure\) \}", norm(rhs))
+            if not bm:
+                die(w + ": arm %s has an unexpected shape (C18/Model.v read_dispatch models `let ctx: md::CONTEXT_T = bytes.gread_with(..)"
+                        ".or(Err(ReadFailure))?; let flags = ContextFlagsCpu::from_flags(ctx.context_flags [as u32]); if flags == "
+                        "ContextFlagsCpu::CONTEXT_F { [XSTATE warning] Ok(from_raw(MinidumpRawContext::V(ctx))) } else { Err(ReadFailure) }`): %r"
+                    % (pat, norm(rhs)[:200]))
+            ty, cast, flag, variant = bm.group(1), bm.group(2), bm.group(3), bm.group(4)
+            if variant not in variants or ty not in self.structs:
+                die(w + ": arm %s reads %s into MinidumpRawContext::%s" % (pat, ty, variant))
+            fw = self.structs[ty].get("context_flags")
+            if not fw or fw[1] is not None or (fw[0] == 32) == bool(cast) or fw[0] not in (32, 64):
+                die(w + ": arm %s: context_flags of %s is %r but the cast to u32 is %s" % (pat, ty, fw, "present" if cast else "absent"))
+            if flag not in self.cpu_flags:
+                die(w + ": arm %s tests ContextFlagsCpu::%s, which format.rs does not define" % (pat, flag))
+            arms.append({"archs": [archs[n] for n in names], "arch_names": names, "type": ty, "variant": variant, "flag_name": flag,
+                         "flag": self.cpu_flags[flag], "size": self.size_of(ty, "format.rs " + ty), "flags_off": self.offsets(ty)["context_flags"],
+                         "flags_width": fw[0]})
+        if not default_seen:
+            die(w + ": no `_` arm")
+        allbits = 0
+        for v in self.cpu_flags.values():
+            allbits |= v
+        return {"arms": arms, "mask": mask, "allbits": allbits, "archs": archs}
+
     # ---------------------------------------------------------------- all
     def run(self):
         self.parse_format()
@@ -968,6 +1051,8 @@ class Tr:
             cpu_flags[mm.group(1)] = int(mm.group(2), 0)
         if not cpu_flags:
             die("format.rs: no constants in ContextFlagsCpu")
+        self.cpu_flags = cpu_flags
+        self.read = self.parse_read(variants)
         out = []
         for v, cname in variants.items():
             fw = self.structs[cname].get("context_flags")
@@ -1114,6 +1199,24 @@ def coq_loc(l):
     return "(mkloc %s %s %s %s)" % (coq_str(l[0]), coq_z(l[1]), coq_z(l[2]), coq_z(l[3]))
 
 
+def emit_read(rd):
+    o = []
+    o.append("(* MinidumpContext::read: `match md::ProcessorArchitecture::from_u16(system_info.raw.processor_architecture)`; per arm:")
+    o.append("   the architecture numbers matched, the CONTEXT_* type read from the bytes, the MinidumpRawContext variant it is wrapped in,")
+    o.append("   the name and value of the ContextFlagsCpu constant `ContextFlagsCpu::from_flags(ctx.context_flags [as u32])` is compared with,")
+    o.append("   the serialised size of the type (a shorter buffer is a ReadFailure); `_ => Err(UnknownCpuContext)` *)")
+    for a in rd["arms"]:
+        o.append("(*   %s => %s as MinidumpRawContext::%s if flags == ContextFlagsCpu::%s (%#x), %d bytes *)"
+                 % (" | ".join(a["arch_names"]), a["type"], a["variant"], a["flag_name"], a["flag"], a["size"]))
+    o.append("Definition read_arms : list read_arm := %s." % coq_list(
+        "(mk_read_arm %s %s %s %s %d %d)" % (coq_list(str(x) for x in a["archs"]), coq_str(a["type"]), coq_str(a["variant"]), coq_str(a["flag_name"]), a["flag"], a["size"])
+        for a in rd["arms"]))
+    o.append("(* ContextFlagsCpu::from_flags(f) = from_bits_truncate(f & CONTEXT_CPU_MASK): the mask, and the union of the defined constants *)")
+    o.append("Definition read_cpu_mask : Z := %d." % rd["mask"])
+    o.append("Definition read_cpu_all_bits : Z := %d." % rd["allbits"])
+    return "\n".join(o) + "\n"
+
+
 def emit(tables):
     o = []
     o.append("(* GENERATED by translate/context_tables.py from minidump/src/context.rs and")
@@ -1182,7 +1285,7 @@ def emit(tables):
     return "\n".join(o) + "\n"
 
 
-def names_json(tables):
+def names_json(tables, rd):
     d = {}
     for t in tables:
         names = []
@@ -1208,6 +1311,10 @@ def names_json(tables):
         d[t["variant"]] = {"type": t["name"], "width": t["width"], "registers": t["registers"], "names": names,
                            "sp_name": t["sp_name"], "ip_name": t["ip_name"], "aliases": aliases,
                            "flags_width": t["flags_width"], "cpu_flags": t["cpu_flags"]}
+    for a in rd["arms"]:
+        d[a["variant"]].setdefault("read_archs", []).extend(a["archs"])
+        d[a["variant"]]["read_size"] = a["size"]
+    d["$read"] = {"archs": rd["archs"], "mask": rd["mask"], "allbits": rd["allbits"]}
     return json.dumps(d, indent=1, sort_keys=True) + "\n"
 
 
@@ -1228,12 +1335,13 @@ def main():
         sys.exit(2)
     repo, outdir = sys.argv[1], sys.argv[2]
     try:
-        tables = Tr(repo).run()
+        tr = Tr(repo)
+        tables = tr.run()
     except Abort as e:
         print("context_tables.py: ABORT: %s" % e, file=sys.stderr)
         sys.exit(1)
-    write_if_changed(os.path.join(outdir, "ContextTables.v"), emit(tables))
-    write_if_changed(os.path.join(outdir, "context_names.json"), names_json(tables))
+    write_if_changed(os.path.join(outdir, "ContextTables.v"), emit(tables) + emit_read(tr.read))
+    write_if_changed(os.path.join(outdir, "context_names.json"), names_json(tables, tr.read))
 
 
 if __name__ == "__main__":
